@@ -5,6 +5,7 @@ import signal
 from enum import Enum
 from qbee import grammar
 from pyparsing.exceptions import ParseException
+from qbee.exceptions import SyntaxError as QbeeSyntaxError
 from .instrs import op_code_to_instr
 from .utils import format_number
 from .cell import CellType, CellValue, Reference
@@ -513,6 +514,12 @@ class QvmCpu:
         elif code == TrapCode.INVALID_CELL_VALUE:
             cell_type = kwargs.get('type')
             value = kwargs.get('value')
+            try:
+                value = str(value)
+            except ValueError:
+                # an integer with more digits than Python is willing
+                # to print (7& ^ 400000&)
+                value = f'an integer of {value.bit_length()} bits'
             print(f'A cell of type {cell_type} cannot hold: {value}')
         elif code == TrapCode.INDEX_OUT_OF_RANGE:
             if msg := kwargs.get('msg'):
@@ -1336,6 +1343,18 @@ class QvmCpu:
             value = float(literal.eval())
         except ParseException:
             value = 0.0
+        except QbeeSyntaxError:
+            # a numeral the compiler would reject as a literal (its
+            # type suffix cannot hold it, a hexadecimal number with too
+            # many digits): VAL reads the digits in front of the suffix
+            digits = string
+            for suffix in '%&!#':
+                digits = digits.split(suffix)[0]
+            try:
+                literal = grammar.numeric_literal.parse_string(digits)[0]
+                value = float(literal.eval())
+            except (ParseException, QbeeSyntaxError):
+                value = 0.0
         self.push(CellType.DOUBLE, value)
 
     def _exec_sign(self):
